@@ -18,6 +18,7 @@ func init() {
 			"PV-PURE LabelSet read accessors do not write the label map; groupEntries keeps every entry (no de-duplication), deterministic",
 			"LP-ERRPATH: every stage that flags __error__ (typed label filters, extractors, line_format) returns the unchanged line, kept, on its failing paths",
 			"CH-MAP builder tables incl. and/or predicate; templates are compiled per stage instance",
+			"labels are cleared per record; limit plumbing",
 		},
 		NotDecided: []string{"strings.Contains(s, \"\") being true (library semantics)", "regexp engine semantics"},
 		Rules: func(r *Run) {
@@ -46,6 +47,8 @@ func init() {
 			ruleCHBuilders(r)
 			ruleTemplatePerStage(r)
 			ruleTemplateBinding(r)
+			ruleSetClearedPerRecord(r)
+			ruleLimit(r)
 		},
 	})
 }
